@@ -48,6 +48,7 @@ var droppedPrefixes = []string{
 	"github.com/prometheus/client_golang/prometheus.",
 	"go.opentelemetry.io/otel/attribute.",
 	"github.com/ava-labs/avalanchego/utils/timer.(*Timer).",
+	"time.Now", "time.Since", "time.(Time).",
 }
 
 func isDroppedKey(key string) bool {
@@ -202,7 +203,16 @@ func (f *Frame) execCallStmt(call *ast.CallExpr, st *State, k func(*State, []Val
 			}
 		}
 	}
-	if alt, ok := contractAlias[key]; ok && in.W.contractFor(alt) != nil {
+	alt, ok := contractAlias[key]
+	if !ok {
+		// scoped form: "<caller package path prefix>|<callee key>"
+		for k, v := range contractAlias {
+			if i := strings.Index(k, "|"); i >= 0 && k[i+1:] == key && strings.HasPrefix(f.pkg.PkgPath, k[:i]) {
+				alt, ok = v, true
+			}
+		}
+	}
+	if ok && in.W.contractFor(alt) != nil {
 		in.note("calls to " + key + " use the contract of " + alt + " (property configuration)")
 		key = alt
 	}
@@ -906,6 +916,40 @@ func (w *World) funcObj(c *Contract) *types.Func {
 	}
 	scope := pi.P.Types.Scope()
 	name := c.Name
+	if strings.Contains(name, "/") {
+		// fully qualified name of a function/method of a package that is only imported
+		// (path.Func or path.Type.Method): resolve it through the import graph
+		slash := strings.LastIndex(name, "/")
+		dot := strings.Index(name[slash:], ".")
+		if dot < 0 {
+			return nil
+		}
+		path, rest := name[:slash+dot], name[slash+dot+1:]
+		var ext *types.Package
+		for _, q := range w.Pkgs {
+			for _, imp := range q.P.Types.Imports() {
+				if imp.Path() == path {
+					ext = imp
+				}
+			}
+		}
+		if ext == nil {
+			return nil
+		}
+		scope = ext.Scope()
+		name = rest
+		if i := strings.Index(name, "."); i >= 0 {
+			tobj, _ := scope.Lookup(name[:i]).(*types.TypeName)
+			if tobj == nil {
+				return nil
+			}
+			obj, _, _ := types.LookupFieldOrMethod(tobj.Type(), true, ext, name[i+1:])
+			fn, _ := obj.(*types.Func)
+			return fn
+		}
+		fn, _ := scope.Lookup(name).(*types.Func)
+		return fn
+	}
 	if strings.HasPrefix(name, "(") {
 		// (*T).M or (T).M
 		cl := strings.Index(name, ")")
@@ -1165,6 +1209,12 @@ func (f *Frame) runAsserts(ord int, st *State, call *ast.CallExpr) {
 			f.snapshots = map[string]*State{}
 		}
 		f.snapshots[name] = st.clone()
+	}
+	if len(f.contract.Asserts[ord]) > 0 {
+		if f.assertHit == nil {
+			f.assertHit = map[int]bool{}
+		}
+		f.assertHit[ord] = true
 	}
 	for i, a := range f.contract.Asserts[ord] {
 		env := f.specEnvAt(st, call.End())
